@@ -6,7 +6,7 @@ package main
 //
 // One *sequence* = one fresh server + a list of steps over several client connections.  Every step is
 // one IMAP command on one connection; the harness records per step the completion class of the
-// tagged reply (ok / no / bad / bye / none), which users' markers were visible in the untagged data,
+// reply (ok / no / bad / bye / byeonly / none), which users' markers were visible in the untagged data,
 // send / receive times and whether the text was "too many login attempts".  The whole trace goes to
 // the Lean judge `judge-c18-wire` (Driver/DJudgeAuth.lean) which runs `Gluon.Auth.step` with the
 // regenerated dispatch facts over it: the model predicts class and protocol state for every step,
@@ -365,6 +365,7 @@ type authObs struct {
 	Recv    int64  // ms, taken after the completion was read
 	Blocked bool   // text "too many login attempts"
 	Full    bool   // the command was the full listing LIST "" "*"
+	Untag   bool   // the completion was an untagged NO/BAD (the line had no tag: DONE outside IDLE)
 	Acc     []int  // LOGIN: users whose connector accepts the credentials (from the harness' credential table)
 	Raw     string
 }
@@ -470,15 +471,14 @@ func execAuthStep(c *Client, st authStep) Reply {
 		r2.Untagged = append(rep.Untagged, r2.Untagged...)
 		return r2
 	case "Done":
-		// a stray DONE line: it has no tag, the completion comes back with an empty tag (" NO bad command")
+		// a stray DONE line has no tag: the server answers it with an untagged `* NO bad command` (a response
+		// to a line without a parsable tag is untagged) and no tagged completion follows.  That untagged
+		// NO / BAD is the completion of this step.  (The older form with an empty tag, " NO …", is read the same way.)
 		_ = c.conn.SetWriteDeadline(time.Now().Add(c.Timeout))
 		if _, err := c.conn.Write([]byte("DONE\r\n")); err != nil {
 			return Reply{Err: err}
 		}
 		rep := Reply{}
-		old := c.Timeout
-		c.Timeout = 5 * time.Second
-		defer func() { c.Timeout = old }()
 		for {
 			b, err := c.readLogical()
 			if err != nil {
@@ -486,12 +486,17 @@ func execAuthStep(c *Client, st authStep) Reply {
 				return rep
 			}
 			s := string(b)
+			f := strings.Fields(s)
+			if len(f) >= 2 && f[0] == "*" && (f[1] == "NO" || f[1] == "BAD") {
+				rep.Tagged, rep.Status = s, f[1]
+				return rep
+			}
 			if strings.HasPrefix(s, "* ") {
 				rep.Untagged = append(rep.Untagged, s)
 				continue
 			}
 			rep.Tagged = s
-			if f := strings.Fields(s); len(f) > 0 {
+			if len(f) > 0 {
 				rep.Status = f[0]
 			}
 			return rep
@@ -573,6 +578,7 @@ func runAuthSeq(q *authSeq, verbose bool) *authRun {
 		o.Status = authClass(rep)
 		o.Seen = authSeen(rep.Untagged)
 		o.Blocked = strings.Contains(rep.Tagged, "too many login attempts")
+		o.Untag = strings.HasPrefix(rep.Tagged, "* ")
 		o.Raw = rep.Tagged
 		if rep.Tagged == "" && rep.Err != nil {
 			o.Raw = "<" + rep.Err.Error() + ">"
@@ -642,6 +648,9 @@ func (r *authRun) judgeLine() string {
 		if o.Full {
 			fl += "f"
 		}
+		if o.Untag {
+			fl += "u"
+		}
 		if fl == "" {
 			fl = "-"
 		}
@@ -659,7 +668,7 @@ var authAllTypes = []string{"Append", "Capability", "Check", "Close", "Copy", "C
 
 // protocol-state labels (the judge computes the authoritative ones from the model's run; these steer the generator):
 // N0 not authenticated, NF not authenticated after a failed LOGIN, A authenticated, S selected,
-// AC authenticated after CLOSE/UNSELECT, X connection ended by LOGOUT (or by STARTTLS without TLS)
+// AC authenticated after CLOSE/UNSELECT, X connection ended by LOGOUT
 var authLabels = []string{"N0", "NF", "A", "S", "AC", "X"}
 
 type authGen struct {
@@ -875,7 +884,7 @@ func (g *authGen) emit(q *authSeq, p *authConnPlan, ty string) {
 // block: n commands chosen by the coverage deck for the connection's current label; none of them moves the label
 func (g *authGen) block(q *authSeq, p *authConnPlan, n int) {
 	for i := 0; i < n; i++ {
-		ex := map[string]bool{"Logout": p.label != "X", "StartTLS": p.label != "X"}
+		ex := map[string]bool{"Logout": p.label != "X"}
 		switch p.label {
 		case "N0":
 			ex["Login"] = true // a LOGIN in N0 moves the label: scheduled by the plan
@@ -992,7 +1001,7 @@ func (g *authGen) genAuthSeq(r *Rng, jailMS int) *authSeq {
 		}
 		best, bestN := [][2]string{}, 1<<30
 		for _, e := range ends {
-			for _, t := range []string{"Logout", "StartTLS"} {
+			for _, t := range []string{"Logout"} {
 				n := g.deck[e+"/"+t]
 				if n < bestN {
 					best, bestN = [][2]string{{e, t}}, n
